@@ -205,7 +205,9 @@ def check_closest(run, rule='R23'):
     f = run.prog.func('geom3d:Plucker.closest')
     fi = FuncInfo.of(f)
     s = f.selfname
-    defs = {st.targets[0].id: canon(fi, st.value, inline=False) for st in own_walk(f.node)
+    from ..cfg import pure_locals, _subst_pure
+    pl = {k: canon(fi, v, inline=False) for k, v in pure_locals(f.node).items() if k not in ('lam', 'p', 'd')}
+    defs = {st.targets[0].id: _subst_pure(canon(fi, st.value, inline=False), pl) for st in own_walk(f.node)
             if isinstance(st, ast.Assign) and isinstance(st.targets[0], ast.Name)}
     x = [p for p in f.params if p != s][0]
     ok_l = 'lam' in defs and matches('dot(%s - %s.pp, %s.uw)' % (x, s, s), defs['lam']) is not None
